@@ -122,9 +122,8 @@ impl<F: Field> PolynomialCoeffs<F> {
             tmp.trim();
             let mut b = &a * &tmp;
             b.trim();
-            if b.len() > l {
-                b.coeffs.drain(l..);
-            }
+            // `b` holds the next `l` coefficients of the inverse; keep exactly `l` of them.
+            b.coeffs.resize(l, F::ZERO);
             a.coeffs.extend_from_slice(&b.coeffs);
         }
         a.coeffs.drain(n..);
